@@ -9,6 +9,8 @@ package harness
 
 import (
 	"fmt"
+	"os"
+	"path/filepath"
 	"sort"
 	"strings"
 
@@ -110,14 +112,32 @@ func c18Dump(f *Fix) map[string]string {
 	return out
 }
 
+func c18ImportClass(err error) string {
+	m := err.Error()
+	switch {
+	case strings.Contains(m, "does not pass validation for deployment"):
+		return "vfbc-already-imported"
+	case strings.Contains(m, "failed to obtain coinbase address"):
+		return "vfbc-deploy-needs-proposer"
+	}
+	return "other"
+}
+
 func c18Generic(r *Run, f *Fix, trace []string) {
 	if f.App == nil {
 		return
 	}
 	f2, exp1, exp2, err := f.ImportedCopy()
+	if err != nil && c18ImportClass(err) == "vfbc-deploy-needs-proposer" {
+		r.Violate("C18/import/exported-genesis-rejected/vfbc-deploy-needs-proposer", trunc200("InitChainer failed on the exported state: "+err.Error()), trace...)
+		r.Hit("c18/import-failed/vfbc-deploy-needs-proposer")
+		// continue the comparison with a proposer in the InitChainer header
+		f2, exp1, exp2, err = f.ImportedCopyOpt(true)
+	}
 	if err != nil {
-		r.Violate("C18/import/exported-genesis-rejected", trunc200("InitChainer failed on the exported state: "+err.Error()), trace...)
-		r.Hit("c18/import-failed")
+		cl := c18ImportClass(err)
+		r.Violate("C18/import/exported-genesis-rejected/"+cl, trunc200("InitChainer failed on the exported state: "+err.Error()), trace...)
+		r.Hit("c18/import-failed/" + cl)
 		return
 	}
 	r.Hit("c18/imported")
@@ -131,7 +151,11 @@ func c18Generic(r *Run, f *Fix, trace []string) {
 			continue
 		}
 		if d := firstJSONDiff(exp1[m], exp2[m]); d != "" {
-			r.Violate("C18/reexport/"+m+"-genesis-differs", trunc200("second export differs at "+m+d), trace...)
+			if dir := os.Getenv("VERIF_C18_DUMP"); dir != "" {
+				_ = os.WriteFile(filepath.Join(dir, m+".1.json"), exp1[m], 0o644)
+				_ = os.WriteFile(filepath.Join(dir, m+".2.json"), exp2[m], 0o644)
+			}
+			r.Violate("C18/reexport/"+m+"-genesis-differs/"+diffSig(d), trunc200("second export differs at "+m+d), trace...)
 		}
 	}
 	if m1, m2 := f.Invariants(), f2.Invariants(); m1 == "" && m2 != "" {
